@@ -224,7 +224,7 @@ Definition check (c : sx) : verdict :=
   | SList [_; SList [SInt (-1)]] => VOk    (* inconclusive run: a blocking caller neither returned nor parked *)
   | SList [SList [SInt _]; SList [SInt (-2); SInt k; _]] =>
       (* all 65535 numbers outstanding: evaluated on the Go side (k = which check failed) *)
-      if k =? 0 then VOk else if k =? 2 then VPropFail 1 else VPropFail 2
+      if k =? 0 then VOk else if (k =? 2) || (k =? 8) || (k =? 10) then VPropFail 1 else VPropFail 2
   | SList [SList [SInt c0; SList ops]; SList os] =>
       match map_opt hop_of ops, map_opt obs_of os with
       | Some ops, Some os =>
